@@ -79,6 +79,32 @@ def run(prop, tier):
                         if viol is None and got != (data, sr, w, ch):
                             viol = {"what": "wav written with %s and read back with %s(large_file=%s) is not identical (bytes equal: %s, params %r vs %r)" % (how, fn, large, got[0] == data, got[1:], (sr, w, ch)),
                                     "rate": sr, "sw": w, "ch": ch, "data": list(data)}
+            # --- a path used again: the file is overwritten (through one spelling of its name, with the time stamps of what it
+            # replaces) by audio of another rate / width / channel count and length, then read through another spelling
+            spell_w = [os.path.join(tmpd, "again.wav"), os.path.join(tmpd, ".", "again.wav"), os.path.join(tmpd, "sub", "..", "again.wav"), Path(tmpd) / "again.wav"][it % 4]
+            spell_r = [os.path.join(tmpd, "again.wav"), Path(tmpd) / "again.wav"][(it // 4) % 2]
+            os.makedirs(os.path.join(tmpd, "sub"), exist_ok=True)
+            if it % 3 == 0:
+                to_file(data, str(spell_w), sr=sr, sw=w, ch=ch)
+            else:
+                reg.save(spell_w)
+            os.utime(str(spell_w), (1700000000, 1700000000))
+            for large in (True, False):
+                for fn in ("load", "from_file"):
+                    evals += 1
+                    try:
+                        if fn == "load":
+                            back = load(spell_r, large_file=large)
+                            got = (back.data, back.sr, back.sw, back.ch)
+                        else:
+                            src = from_file(spell_r, large_file=large)
+                            src.open(); d = src.read(-1) or b""; src.close()
+                            got = (d, src.sr, src.sw, src.ch)
+                    except Exception as e:
+                        got = (b"", "raised %s: %s" % (type(e).__name__, e), None, None)
+                    if viol is None and got != (data, sr, w, ch):
+                        viol = {"what": "a wav path written again (as %r, earlier contents had other parameters) and read back with %s(%r, large_file=%s) is not what was written (bytes equal: %s, params %r, written %r)" % (
+                            str(spell_w)[len(tmpd):], fn, str(spell_r)[len(tmpd):], large, got[0] == data, got[1:], (sr, w, ch)), "rate": sr, "sw": w, "ch": ch, "data": list(data)[:200]}
             # --- raw round trip
             p = os.path.join(tmpd, "f_%d.raw" % it)
             reg.save(p)
